@@ -1,0 +1,32 @@
+//go:build verif
+
+package lang
+
+// Machine-checked contracts for this package (comment-only; compiled only with
+// the build tag `verif`). They are read by /verif/govc, which generates
+// verification conditions from the go/ssa form of the functions named here and
+// discharges them with SMT solvers. See /verif/DESIGN.md.
+
+//@ func FnReadsFrom
+//@   property C05
+//@   ghost bi int
+//@   ghost ii int
+//@   requires fn != nil && 0 <= bi && bi < len(fn.Blocks)
+//@   requires 0 <= ii && ii < len(fn.Blocks[bi].Instrs)
+//@   slots fn.Blocks[bi].Instrs[ii] world ssa.Instruction except Store.Addr, MapUpdate.Map, Send.Chan, DebugRef.X
+//@     assume reads: val != nil && $slot == val
+//@   ensures reads_complete: result
+//@   loop 1 invariant bi >= iter(1)
+//@   loop 2 invariant bi == iter(1) ==> ii >= iter(2)
+
+//@ func FnWritesTo
+//@   property C05
+//@   ghost bi int
+//@   ghost ii int
+//@   requires fn != nil && 0 <= bi && bi < len(fn.Blocks)
+//@   requires 0 <= ii && ii < len(fn.Blocks[bi].Instrs)
+//@   slots fn.Blocks[bi].Instrs[ii] world ssa.Instruction only Store.Addr, MapUpdate.Map, Send.Chan
+//@     assume writes: val != nil && $slot == val
+//@   ensures writes_complete: result
+//@   loop 1 invariant bi >= iter(1)
+//@   loop 2 invariant bi == iter(1) ==> ii >= iter(2)
